@@ -59,6 +59,12 @@ impl TaskDistributor {
     pub(crate) fn kill(&self) {
         self.kill_switch.store(true, Ordering::Relaxed);
     }
+
+    #[cfg(datacake_verif)]
+    /// Verification hook: the id this service's events carry.
+    pub(crate) fn verif_id(&self) -> usize {
+        Arc::as_ptr(&self.kill_switch) as usize
+    }
 }
 
 /// A enqueued event/operation for the distributor to handle next tick.
@@ -145,6 +151,13 @@ async fn task_distributor_service<S>(
             }
         }
 
+        #[cfg(datacake_verif)]
+        crate::verif::members_event(
+            "mc_dist",
+            Arc::as_ptr(&kill_switch) as usize,
+            &live_members,
+            std::iter::empty(),
+        );
         if !put_payloads.is_empty() || !del_payloads.is_empty() {
             let timestamp = ctx.clock.get_time().await;
             let batch = BatchPayload {
